@@ -71,7 +71,7 @@ class C31(Check):
             "range of 2-4 values (ties), sometimes negative or wide. Non-trivial = at least 3 operations and 2 items; "
             "distinct = distinct case text")
     trusted = ("harness includes parsec_object.c/parsec_list.c/parsec_dequeue.c/parsec_fifo.c and the inline headers "
-               "(no libparsec); each case runs in a forked child",)
+               "(no libparsec); a case that crashes or loops is abandoned through a signal handler and reported as such",)
     assumptions = ("locked variants: the critical section guarded by parsec_list_lock is atomic (linearizability of "
                    "lock-protected sections is assumed, the lock itself is property C33's business)",
                    "priorities fit an int with |p| < 2^30 (the pivot expression of push_sorted cannot overflow); fewer "
